@@ -308,6 +308,15 @@ def pop_op(rng, st, op):
         m.fix_parameters({names[i]: 0.4 for i in pick})
         st.fixed.update(pick)
         return 'fix(%d)' % k
+    if op == 'fix_all' and st.reduced:
+        if not unique:
+            return None
+        free = [i for i in range(len(names)) if i not in st.fixed]
+        if not free:
+            return None
+        m.fix_parameters({names[i]: 0.4 for i in free})
+        st.fixed.update(free)
+        return 'fix_all(%d)' % len(free)
     if op == 'release' and st.reduced and st.fixed:
         if not unique:
             return None
@@ -331,7 +340,8 @@ def pop_op(rng, st, op):
 
 
 POP_OPS = ['set_n_ids', 'set_dim_names', 'set_parameter_names', 'fix',
-           'release', 'set_population_parameters', 'set_covariate_names']
+           'release', 'set_population_parameters', 'set_covariate_names',
+           'fix_all']
 
 
 class CovariateNames(Exception):
@@ -393,6 +403,7 @@ def _finish_hierarchical(ctx, rng, st, feats):
                 exclude_bottom_level=True)) != n_top_free:
             prob.append('top-level count %s expected %s' % (
                 n_top, n_top_free))
+        prob += GH.flag_combinations_agree(obj)
         default_names = not any(
             o == 'set_parameter_names(custom)' for o in st.ops)
         if default_names and len(set(names_id)) != len(names_id):
